@@ -29,7 +29,7 @@ run_one() {
   elif ! (cd "$work/repo" && go build ./... >/dev/null 2>"$work/build.err"); then
     status=skipped; detail="mutant does not compile: $(head -c 300 "$work/build.err" | tr '\n"' ' .')"
   else
-    bin/kmipsa -repo "$work/repo" -verif "$PWD" -outdir "$work/out" -prop "$ID" -tier quick -evidence "$work/ev.json" > "$work/log" 2>&1
+    ${KMIPSA:-bin/kmipsa} -repo "$work/repo" -verif "$PWD" -outdir "$work/out" -prop "$ID" -tier quick -evidence "$work/ev.json" > "$work/log" 2>&1
     local rc=$?
     grep 'kind=' "$work/log" > "$work/diag" || true
     if [ $rc -eq 1 ] && grep -qF -- "$expect" "$work/diag"; then status=killed; detail=$(grep -F -- "$expect" "$work/diag" | head -1 | tr '"' "'" | cut -c1-300)
